@@ -75,11 +75,29 @@ func emitC08(t *tr) {
 	// time.After(fileLockPollInterval), and whether emptyCount is ever reset
 	if fd := t.funcs["FileStorage.Lock"]; fd != nil && fd.Body != nil {
 		var retries, sleep string
-		poll, resets := false, false
+		poll, resets, guard, undec := false, false, false, false
 		ast.Inspect(fd.Body, func(n ast.Node) bool {
 			switch x := n.(type) {
 			case *ast.IfStmt:
-				if be, ok := x.Cond.(*ast.BinaryExpr); ok && be.Op == token.LSS && exprStr(be.X) == "emptyCount" {
+				// the branch that counts empty reads: `if err2 != nil {` or `if errors.Is(err2, io.EOF) {`
+				if len(x.Body.List) > 0 {
+					for _, st := range x.Body.List {
+						if inc, isInc := st.(*ast.IncDecStmt); isInc && exprStr(inc.X) == "emptyCount" {
+							if c, isBin := x.Cond.(*ast.BinaryExpr); isBin && c.Op == token.NEQ && exprStr(c.X) == "err2" && exprStr(c.Y) == "nil" {
+								undec = true
+							}
+						}
+					}
+				}
+				be, ok := x.Cond.(*ast.BinaryExpr)
+				// `emptyCount < N || lockfileRecentlyModified(filename)`: the retry limit only counts once
+				// the file has not been modified for a while
+				if ok && be.Op == token.LOR {
+					if l, ok2 := be.X.(*ast.BinaryExpr); ok2 && l.Op == token.LSS && exprStr(l.X) == "emptyCount" && exprStr(be.Y) == "lockfileRecentlyModified(...)" {
+						be, guard = l, true
+					}
+				}
+				if ok && be.Op == token.LSS && exprStr(be.X) == "emptyCount" {
 					if s, ok := t.c08EvalInt(be.Y, "empty retry count"); ok {
 						retries = s
 					}
@@ -110,6 +128,37 @@ func emitC08(t *tr) {
 			t.p("Definition lock_empty_sleep : Z := (%s)%%Z. (* Lock: time.After between empty reads *)\n", sleep)
 			t.p("Definition lock_empty_count_resets : bool := %v. (* Lock: emptyCount is %s *)\n", resets,
 				map[bool]string{true: "reset by an assignment", false: "never reset: cumulative over the whole call"}[resets])
+			// the guard counts only if lockfileRecentlyModified is `... time.Since(fi.ModTime()) <= lockFreshnessInterval*K`
+			gfactor := ""
+			if fd := t.funcs["lockfileRecentlyModified"]; guard && fd != nil && fd.Body != nil {
+				ast.Inspect(fd.Body, func(n ast.Node) bool {
+					if be, ok := n.(*ast.BinaryExpr); ok && be.Op == token.LEQ && exprStr(be.X) == "time.Since(...)" {
+						if m, ok := be.Y.(*ast.BinaryExpr); ok && m.Op == token.MUL {
+							var f ast.Expr
+							switch {
+							case exprStr(m.X) == "lockFreshnessInterval":
+								f = m.Y
+							case exprStr(m.Y) == "lockFreshnessInterval":
+								f = m.X
+							}
+							if c, ok := be.X.(*ast.CallExpr); ok && f != nil && len(c.Args) == 1 && exprStr(c.Args[0]) == "fi.ModTime(...)" {
+								if s, ok := t.c08EvalInt(f, "mtime guard factor"); ok {
+									gfactor = s
+								}
+							}
+						}
+					}
+					return true
+				})
+			}
+			if gfactor == "" {
+				guard, gfactor = false, "0"
+			}
+			t.p("Definition lock_undecodable_as_empty : bool := %v. (* Lock: the empty-file branch is entered on %s *)\n", undec,
+				map[bool]string{true: "any decode error (err2 != nil)", false: "io.EOF only; other decode errors are returned"}[undec])
+			t.p("Definition lock_empty_mtime_guard : bool := %v. (* Lock: %s *)\n", guard,
+				map[bool]string{true: "an empty lock file is treated as stale only when it was not modified recently", false: "the empty-read retry limit alone decides"}[guard])
+			t.p("Definition lock_empty_mtime_factor : Z := (%s)%%Z. (* lockfileRecentlyModified: time.Since(mtime) <= lockFreshnessInterval*%s *)\n", gfactor, gfactor)
 		}
 	} else {
 		t.errf("missing FileStorage.Lock")
